@@ -15,6 +15,8 @@ fn main() {
         "C06" => hdmc::poolmc::run(&args, "C06"),
         "C14" => hdmc::poolmc::run(&args, "C14"),
         "C15" => hdmc::poolmc::run(&args, "C15"),
+        "C07" => hdmc::schedmc::c07::run(&args),
+        "C09" => hdmc::schedmc::c09::run(&args),
         "C08" => hdmc::props::iomc::run_c08(&args),
         "C18" => hdmc::props::iomc::run_c18(&args),
         "C10" | "C11" => hdmc::props::hemc::run(&args, &args.id),
